@@ -105,6 +105,8 @@ pub struct NetCfg {
     /// a reset is reported to the reader once; later reads answer end of stream (what Quinn does, and what the
     /// contract of quic::RecvStream::poll_data allows: `None` once no more data will be received)
     pub reset_then_end: bool,
+    /// per side: the n-th poll_open_send is refused once with a stream-level error (set by a check, never drawn here)
+    pub refuse_uni_open_at: [Option<u32>; 2],
 }
 impl Default for NetCfg {
     fn default() -> Self {
@@ -122,6 +124,7 @@ impl Default for NetCfg {
             auto_grant: true,
             max_datagram: 1200,
             reset_then_end: false,
+            refuse_uni_open_at: [None, None],
         }
     }
 }
@@ -142,6 +145,7 @@ impl NetCfg {
             auto_grant: true,
             max_datagram: 1200,
             reset_then_end: draw(3) == 2,
+            refuse_uni_open_at: [None, None],
         }
     }
 }
@@ -244,6 +248,11 @@ pub struct SideState {
     pub dgram_waker: Option<Waker>,
     pub opened_uni: Vec<u64>,
     pub opened_bi: Vec<u64>,
+    /// calls of poll_open_send that got past the credit check so far
+    pub uni_open_attempts: u32,
+    /// the n-th such call is refused once with a stream-level error although the connection is fine (a transport
+    /// is free to refuse a stream; h3 treats a refused QPACK or grease stream as non-fatal)
+    pub refuse_uni_open_at: Option<u32>,
 }
 
 #[derive(Clone, Debug)]
@@ -337,7 +346,11 @@ fn scan_marks(buf: &[u8], off: &mut usize, marks: &mut Vec<usize>, uni_prefix: b
 
 impl Net {
     pub fn new(cfg: NetCfg) -> Shared {
-        Arc::new(Mutex::new(Net { cfg, ..Default::default() }))
+        let refuse = cfg.refuse_uni_open_at;
+        let mut n = Net { cfg, ..Default::default() };
+        n.sides[0].refuse_uni_open_at = refuse[0];
+        n.sides[1].refuse_uni_open_at = refuse[1];
+        Arc::new(Mutex::new(n))
     }
     pub fn dir(&mut self, id: u64, sender: u8) -> &mut Dir {
         self.dirs.entry((id, sender)).or_default()
@@ -820,6 +833,14 @@ fn poll_open(net: &Shared, side: u8, uni: bool, cx: &mut Context<'_>) -> Poll<Re
         *c -= 1;
     }
     let idx = if uni { st.next_uni } else { st.next_bi };
+    if uni {
+        st.uni_open_attempts += 1;
+        if st.refuse_uni_open_at == Some(st.uni_open_attempts - 1) {
+            st.refuse_uni_open_at = None;
+            obs::count("fault.uni_open_refused_once");
+            return Poll::Ready(Err(StreamErrorIncoming::Unknown(Box::new(SimErr("stream refused")))));
+        }
+    }
     let opened_so_far = if uni { st.opened_uni.len() } else { st.opened_bi.len() };
     if opened_so_far >= if uni { 256 } else { 4096 } {
         // an endpoint that opens streams without end (each one takes an id and the peer's credit): refuse, record
